@@ -11,9 +11,14 @@ import (
 	"sort"
 	"strconv"
 	"time"
+	"unicode"
+
+	"golang.org/x/text/unicode/norm"
 
 	"github.com/go-text/typesetting/font"
+	ot "github.com/go-text/typesetting/font/opentype"
 	"github.com/go-text/typesetting/harfbuzz"
+	"github.com/go-text/typesetting/language"
 )
 
 type utbGlyph struct {
@@ -30,13 +35,18 @@ type utbFrag struct {
 	Sigs []string `json:"sigs"`
 }
 
-func utbShape(hf *harfbuzz.Font, text []rune, s, e int, dir harfbuzz.Direction, flags harfbuzz.ShappingOptions, props harfbuzz.SegmentProperties) []utbGlyph {
+// utbFeatures are the optional (not enabled by default) features some cases switch on, over the whole text
+var utbFeatureTags = []string{"ordn", "frac", "dlig", "salt", "ss01", "zero", "onum", "smcp", "c2sc", "hlig", "swsh", "cv01"}
+
+var utbLangs = []language.Language{"", "nl", "ca", "tr", "ro", "sr", "ur", "mr", "zh-hant"}
+
+func utbShape(hf *harfbuzz.Font, text []rune, s, e int, dir harfbuzz.Direction, flags harfbuzz.ShappingOptions, props harfbuzz.SegmentProperties, feats []harfbuzz.Feature) []utbGlyph {
 	b := harfbuzz.NewBuffer()
 	b.AddRunes(text, s, e-s)
 	b.Flags = flags
 	b.Props = props
 	b.Props.Direction = dir
-	b.Shape(hf, nil)
+	b.Shape(hf, feats)
 	out := make([]utbGlyph, len(b.Info))
 	for i, in := range b.Info {
 		p := b.Pos[i]
@@ -55,24 +65,50 @@ var utbScriptTexts = [][]rune{
 	[]rune("မြန်မာ"),
 	[]rune("ខ្មែរ"),
 	[]rune("ffi ffl fj Ty"),
+	[]rune("al·la L·L JÍ ij́"),
+	[]rune("1a 2o No. 1/2 3/4"),
+	[]rune("şi ţ fi îi"),
+	[]rune("لا الله محمد"),
+	[]rune("ᠮᠣᠩᠭᠣᠯ ᠪᠢᠴᠢᠭ"),
 }
 
-func utbObserve(enc *json.Encoder, id string, face *font.Face, hf *harfbuzz.Font, text []rune, dir harfbuzz.Direction) {
+func utbObserve(enc *json.Encoder, id string, face *font.Face, hf *harfbuzz.Font, text []rune, dir harfbuzz.Direction, lang language.Language, feats []harfbuzz.Feature) {
 	L := len(text)
-	ev := map[string]interface{}{"id": id, "p": "ok", "n": L, "prog": 0, "native": true, "whole": []utbGlyph{}, "frags": []utbFrag{}, "text": toInts(text), "script": ""}
+	ev := map[string]interface{}{"id": id, "p": "ok", "n": L, "prog": 0, "native": true, "whole": []utbGlyph{}, "frags": []utbFrag{}, "text": toInts(text), "script": "", "letters": false, "digits": false, "marks": false, "decomp": false, "rtl": false, "joiners": false}
+	for _, r := range text {
+		if unicode.IsLetter(r) {
+			ev["letters"] = true
+		}
+		if unicode.IsDigit(r) || (r >= 0x1F1E6 && r <= 0x1F1FF) {
+			ev["digits"] = true
+		}
+		if r == 0x200C || r == 0x200D {
+			ev["joiners"] = true
+		}
+		if unicode.IsMark(r) {
+			ev["marks"] = true
+		}
+		if len(norm.NFD.PropertiesString(string(r)).Decomposition()) != 0 {
+			ev["decomp"] = true
+		}
+	}
 	res, site := withWatchdog(20*time.Second, func() {
 		// native direction of the guessed script
 		g := harfbuzz.NewBuffer()
 		g.AddRunes(text, 0, L)
 		g.GuessSegmentProperties()
 		props := g.Props
+		if lang != "" {
+			props.Language = lang
+		}
 		ev["script"] = scriptName(props.Script)
 		ev["native"] = props.Direction == dir || dir == harfbuzz.TopToBottom
+		ev["rtl"] = props.Direction == harfbuzz.RightToLeft
 		fwd := dir == harfbuzz.LeftToRight || dir == harfbuzz.TopToBottom
 		if !fwd {
 			ev["prog"] = 1
 		}
-		whole := utbShape(hf, text, 0, L, dir, harfbuzz.Bot|harfbuzz.Eot, props)
+		whole := utbShape(hf, text, 0, L, dir, harfbuzz.Bot|harfbuzz.Eot, props, feats)
 		ev["whole"] = whole
 		var cuts []int
 		for i := 1; i < len(whole); i++ {
@@ -103,7 +139,7 @@ func utbObserve(enc *json.Encoder, id string, face *font.Face, hf *harfbuzz.Font
 			if e == L {
 				fl |= harfbuzz.Eot
 			}
-			gl := utbShape(hf, text, s, e, dir, fl, props)
+			gl := utbShape(hf, text, s, e, dir, fl, props, feats)
 			sigs := make([]string, len(gl))
 			for k := range gl {
 				sigs[k] = gl[k].Sig
@@ -169,6 +205,14 @@ func utbMain(args []string) error {
 					}
 					texts = append(texts, t)
 				}
+				// texts on which the face's own contextual rules fire (half of them: rules without nested lookup)
+				for _, rt := range ruleTexts(face, rng, per, per*4000) {
+					texts = append(texts, rt.Text)
+					if len(own) > 0 && rng.Intn(2) == 0 {
+						t := append([]rune{own[rng.Intn(len(own))]}, rt.Text...)
+						texts = append(texts, append(t, own[rng.Intn(len(own))]))
+					}
+				}
 				for _, t := range utbScriptTexts {
 					// only texts the face covers at least partly
 					cov := 0
@@ -182,11 +226,23 @@ func utbMain(args []string) error {
 					}
 				}
 				for ti, t := range texts {
-					for _, dir := range []harfbuzz.Direction{harfbuzz.LeftToRight, harfbuzz.RightToLeft, harfbuzz.TopToBottom} {
-						if dir == harfbuzz.TopToBottom && rng.Intn(3) != 0 {
+					for _, dir := range []harfbuzz.Direction{harfbuzz.LeftToRight, harfbuzz.RightToLeft, harfbuzz.TopToBottom, harfbuzz.BottomToTop} {
+						if (dir == harfbuzz.TopToBottom || dir == harfbuzz.BottomToTop) && rng.Intn(3) != 0 {
 							continue
 						}
-						utbObserve(enc, fmt.Sprintf("%s t%d dir%d", id, ti, dir), face, hf, t, dir)
+						utbObserve(enc, fmt.Sprintf("%s t%d dir%d", id, ti, dir), face, hf, t, dir, "", nil)
+						// the same text under another language system and with optional features switched on
+						if rng.Intn(2) == 0 {
+							lang := utbLangs[rng.Intn(len(utbLangs))]
+							var feats []harfbuzz.Feature
+							fid := ""
+							for k := rng.Intn(3); k > 0; k-- {
+								tag := utbFeatureTags[rng.Intn(len(utbFeatureTags))]
+								feats = append(feats, harfbuzz.Feature{Tag: ot.MustNewTag(tag), Value: 1, Start: harfbuzz.FeatureGlobalStart, End: harfbuzz.FeatureGlobalEnd})
+								fid += "+" + tag
+							}
+							utbObserve(enc, fmt.Sprintf("%s t%d dir%d lang=%s feats=%s", id, ti, dir, lang, fid), face, hf, t, dir, lang, feats)
+						}
 					}
 				}
 			})
